@@ -47,7 +47,7 @@ ASSUMPTIONS = ["no ~/.signacrc user configuration overriding schema_version",
 EXHAUSTIVE = {"quick": False, "thorough": False}
 
 IDRE = re.compile(r"[0-9a-f]{32}")
-NAMES = ["a", "b", "sub", "data", "run", "x.y", "my proj", "src"]
+NAMES = ["a", "b", "sub", "data", "run", "x.y", "my proj", "src", "~", "~root"]
 
 
 # ----------------------------------------------------------------------------
